@@ -132,7 +132,7 @@ def run_scenario(args):
     return out
 
 
-def c08_violations(F, kinds, flavor, consts, T, nA):
+def c08_violations(F, kinds, flavor, consts, T, nA, droppable=()):
     """dict label -> z3 Bool: the quiescent state / history admits NO linearization, or a named consequence fails."""
     n = len(kinds)
     sig = consts["%s::%s" % (flavor, "SIGNALED" if flavor == "auto" else "IS_SET")]
@@ -148,32 +148,57 @@ def c08_violations(F, kinds, flavor, consts, T, nA):
         else:
             inL.append(F.status[o] == E.BV8(2))
         resp.append(F.resp[o])
-    perms = EV.all_permutations(n)
+    # A cancelled wait on an auto-reset event has, at call granularity, up to two effects: it may have
+    # been handed the signal while registered (consume) and its cancellation then passes the signal on
+    # (restore, same effect as set()). Which of the two explanations applies (no effect / consume+restore)
+    # is an existential choice of the linearization; every choice x every order must be invalid.
+    import itertools
+    dwaits = [o for o, (kind, a) in enumerate(kinds) if kind == "wait" and a in droppable] if flavor == "auto" else []
     invalid_all = []
-    for pi in perms:
-        conds = []
-        for i in range(n):
-            for j in range(i + 1, n):
-                a_, b_ = pi[i], pi[j]
-                conds.append(z3.And(inL[a_], inL[b_], z3.ULT(resp[b_], F.inv[a_])))      # b_ responded before a_ was invoked, yet ordered after it
-        flag = z3.BoolVal(False)
-        for o in pi:
-            kind = kinds[o][0]
-            if kind == "set":
-                flag = z3.If(inL[o], z3.BoolVal(True), flag)
-            elif kind == "reset":
-                flag = z3.If(inL[o], z3.BoolVal(False), flag)
-            elif kind == "try":
-                got = F.res[o] == E.BV8(1)
-                conds.append(z3.And(inL[o], got != flag))
-                if flavor == "auto":
-                    flag = z3.If(z3.And(inL[o], got), z3.BoolVal(False), flag)
-            else:
-                conds.append(z3.And(inL[o], z3.Not(flag)))
-                if flavor == "auto":
+    nperm = 0
+    for choice in itertools.product((0, 1), repeat=len(dwaits)):
+        borrowers = [o for o, c in zip(dwaits, choice) if c]
+        ext = list(range(n)) + [("R", o) for o in borrowers]
+        base = lambda x: x[1] if isinstance(x, tuple) else x
+        def in_l(x):
+            if isinstance(x, tuple):
+                return F.status[x[1]] == E.BV8(3)
+            if x in borrowers:
+                return z3.Or(inL[x], F.status[x] == E.BV8(3))
+            return inL[x]
+        for pi in itertools.permutations(ext):
+            if any(isinstance(x, tuple) and pi.index(x) < pi.index(x[1]) for x in pi):
+                continue        # restore before its own consume: not an order of the calls
+            nperm += 1
+            conds = []
+            for i in range(len(pi)):
+                for j in range(i + 1, len(pi)):
+                    a_, b_ = pi[i], pi[j]
+                    if base(a_) == base(b_):
+                        continue
+                    conds.append(z3.And(in_l(a_), in_l(b_), z3.ULT(resp[base(b_)], F.inv[base(a_)])))      # b_ responded before a_ was invoked, yet ordered after it
+            flag = z3.BoolVal(False)
+            for o in pi:
+                if isinstance(o, tuple):
+                    flag = z3.If(in_l(o), z3.BoolVal(True), flag)
+                    continue
+                kind = kinds[o][0]
+                if kind == "set":
+                    flag = z3.If(inL[o], z3.BoolVal(True), flag)
+                elif kind == "reset":
                     flag = z3.If(inL[o], z3.BoolVal(False), flag)
-        conds.append(flag != stored)
-        invalid_all.append(z3.Or(*conds))
+                elif kind == "try":
+                    got = F.res[o] == E.BV8(1)
+                    conds.append(z3.And(inL[o], got != flag))
+                    if flavor == "auto":
+                        flag = z3.If(z3.And(inL[o], got), z3.BoolVal(False), flag)
+                else:
+                    conds.append(z3.And(in_l(o), z3.Not(flag)))
+                    if flavor == "auto":
+                        flag = z3.If(in_l(o), z3.BoolVal(False), flag)
+            conds.append(flag != stored)
+            invalid_all.append(z3.Or(*conds))
+    c08_violations.nperm = nperm
     v = {}
     v["history has no linearization (signal lost, duplicated or delivered to two; try_wait/wait results inconsistent with any real-time respecting order)"] = z3.And(*invalid_all)
     v["panic / unreachable arm, mutex or waker bookkeeping misuse"] = F.bad != E.N(0)
@@ -264,7 +289,8 @@ def run_events(args):
     if r != z3.sat:
         out.update(verdict="vacuous" if r == z3.unsat else "timeout", detail="no complete run within k=%d" % k)
         return out
-    viol = c08_violations(F, kinds, flavor, consts, len(threads), nA)
+    droppable = {it[1] for p_ in programs for it in p_ if isinstance(it, tuple) and it[0] == "drop"}
+    viol = c08_violations(F, kinds, flavor, consts, len(threads), nA, droppable)
     # History pattern of the recorded known finding (manual-reset only, see known_findings.json):
     # a set() publishes IS_SET before a reset() that completes, a waiter registers after that reset
     # while the set() is still draining, and the drain releases it.
@@ -281,7 +307,7 @@ def run_events(args):
             known = z3.Or(*pats)
     tq = time.time()
     r, m = enc.check(done, z3.Or(*viol.values()), z3.Not(known), timeout_s=args.timeout)
-    out["queries"].append(dict(q="no linearization / named consequence violated at quiescence (%d permutations)" % len(EV.all_permutations(len(kinds))), result=str(r), s=round(time.time() - tq, 2)))
+    out["queries"].append(dict(q="no linearization / named consequence violated at quiescence (%d orders of the calls, cancelled waits as no-op or consume+restore)" % c08_violations.nperm, result=str(r), s=round(time.time() - tq, 2)))
     known_hit = False
     if r == z3.unsat and flavor == "manual":
         tq = time.time()
